@@ -565,6 +565,80 @@ def indexed_repeat_forms():
                 yield f, f"indexed-repeat|depth{depth}|{where}|{'pair' if pair else 'single'}"
 
 
+def lone_cell_forms():
+    """One reference in one cell of an otherwise reference-free form, per cell kind and owner kind: whatever a cell needs declared (the last-saved instance) must not depend on some other cell asking for it too."""
+    qcols = ["label", "hint", "guidance_hint", "constraint_message", "required_message", "relevant", "constraint", "required", "read_only", "calculation", "default", "choice_filter", "seed"]
+    for ref in ("${last-saved#t}", "${t}"):
+        for col in qcols:
+            for wrap in ("top", "group", "repeat"):
+                cells = {"label": "x"}
+                typ = "integer"
+                if col in ("label", "hint", "guidance_hint", "constraint_message", "required_message"):
+                    cells[col] = f"see {ref} here"
+                elif col == "seed":
+                    typ = "select_one l1"
+                    cells["parameters"] = f"randomize=true seed={ref}"
+                elif col == "choice_filter":
+                    typ = "select_one l1"
+                    cells[col] = f"cf = {ref}"
+                elif col == "calculation":
+                    typ = "calculate"
+                    cells = {col: f"{ref} + 1"}
+                else:
+                    cells[col] = f"{ref} = 1" if col != "default" else f"{ref}"
+                if col == "constraint_message":
+                    cells["constraint"] = ". > 0"
+                if col == "required_message":
+                    cells["required"] = "yes"
+                q = Row("q", typ, "own", cells)
+                body = [q]
+                if wrap != "top":
+                    body = [Row(wrap, f"begin {wrap}", "wrapper", {"label": "w"}, [q])]
+                f = Form()
+                f.survey = [Row("q", "integer", "t", {"label": "t"})] + body
+                f.choices = {"l1": [{"name": "a", "label": "A", "cf": "1"}]}
+                f.settings = {"form_id": "lone"}
+                yield f, f"lone|{ref[2:6]}|{col}|{wrap}"
+        for kind in ("group", "repeat"):
+            for col in ("label", "relevant", "repeat_count"):
+                if col == "repeat_count" and kind != "repeat":
+                    continue
+                cells = {"label": "s"}
+                cells[col] = f"see {ref}" if col == "label" else (f"{ref} = 1" if col == "relevant" else ref)
+                f = Form()
+                f.survey = [Row("q", "integer", "t", {"label": "t"}), Row(kind, f"begin {kind}", "sec", cells, [Row("q", "text", "inner", {"label": "i"})])]
+                f.settings = {"form_id": "lone"}
+                yield f, f"lone|{ref[2:6]}|{kind}-{col}"
+
+
+def path_prefix_forms():
+    """Select-from-repeat with a filter that also reads a question whose path merely begins with the repeat's path text (/data/rep vs /data/rep2/x, /data/rep_q)."""
+    for other_where in ("group-rep2", "top-rep_q", "repeat-rep_b", "inside"):
+        for sel_where in ("top", "group", "inside"):
+            rp = Row("repeat", "begin repeat", "rep", {"label": "R"}, [Row("q", "text", "nm", {"label": "N"})])
+            f = Form()
+            f.survey = [rp]
+            oname = "other"
+            if other_where == "group-rep2":
+                f.survey.append(Row("group", "begin group", "rep2", {"label": "G"}, [Row("q", "text", oname, {"label": "O"})]))
+            elif other_where == "top-rep_q":
+                oname = "rep_q"
+                f.survey.append(Row("q", "text", oname, {"label": "O"}))
+            elif other_where == "repeat-rep_b":
+                f.survey.append(Row("repeat", "begin repeat", "rep_b", {"label": "RB"}, [Row("q", "text", oname, {"label": "O"})]))
+            else:
+                rp.children.append(Row("q", "text", oname, {"label": "O"}))
+            sel = Row("q", "select_one ${nm}", "sel", {"label": "S", "choice_filter": "${nm} != ${%s} and ${nm} != ''" % oname})
+            if sel_where == "top":
+                f.survey.append(sel)
+            elif sel_where == "group":
+                f.survey.append(Row("group", "begin group", "rep3", {"label": "G3"}, [sel]))
+            else:
+                rp.children.append(sel)
+            f.settings = {"form_id": "pp"}
+            yield f, f"path-prefix|{other_where}|{sel_where}"
+
+
 def negative_cases(ctx):
     n = 0
     styles = [("missing", 0)] + [("duplicate", k) for k in (2, 3, 4, 5)]
@@ -632,6 +706,14 @@ def run_shard(ctx):
         if ctx.mine(k):
             ctx.ctr("same_text_forms")
             check_form(ctx, form, "same-text", sig)
+    for k, (form, sig) in enumerate(lone_cell_forms()):
+        if ctx.mine(k):
+            ctx.ctr("lone_cell_forms")
+            check_form(ctx, form, "lone-cell", sig)
+    for k, (form, sig) in enumerate(path_prefix_forms()):
+        if ctx.mine(k):
+            ctx.ctr("path_prefix_forms")
+            check_form(ctx, form, "path-prefix", sig)
     for k, (form, sig) in enumerate(indexed_repeat_forms()):
         if ctx.mine(k):
             ctx.ctr("indexed_repeat_forms")
